@@ -14,6 +14,8 @@ pub enum Op {
     Push,
     Drain,
     IsEmpty,
+    /// fault: the closure handed to consume() panics after it looked at the drain (caught)
+    DrainPanic,
 }
 
 #[derive(Clone, Debug, Serialize, Deserialize)]
@@ -30,6 +32,11 @@ enum Res {
     /// `cstart`: the step at which the drain closure was entered (the side swap is behind it)
     Drain { values: Vec<f64>, rate: f64, len_hint: usize, cstart: u64 },
     Empty(bool),
+    /// the consume closure was made to panic
+    DrainPanicked,
+    /// consume() itself panicked on its poisoned swap lock (what the shipped code does after a
+    /// panicking closure)
+    Poisoned,
 }
 
 #[derive(Clone, Debug)]
@@ -42,6 +49,7 @@ struct Ev {
 }
 
 pub struct C16Reservoir;
+struct ClosurePanic;
 
 fn do_op(res: &AtomicSamplingReservoir, op: &Op, tid: u32, seq: &mut u32) -> Res {
     match op {
@@ -56,16 +64,50 @@ fn do_op(res: &AtomicSamplingReservoir, op: &Op, tid: u32, seq: &mut u32) -> Res
             let mut rate = 0.0;
             let mut len_hint = 0;
             let mut cstart = 0;
-            res.consume(|d| {
-                cstart = dsim::step();
-                dsim::point("c16.in_closure");
-                rate = d.sample_rate();
-                len_hint = d.len();
-                for v in d {
-                    values.push(v);
+            let r = std::panic::catch_unwind(std::panic::AssertUnwindSafe(|| {
+                res.consume(|d| {
+                    cstart = dsim::step();
+                    dsim::point("c16.in_closure");
+                    rate = d.sample_rate();
+                    len_hint = d.len();
+                    for v in d {
+                        values.push(v);
+                    }
+                })
+            }));
+            match r {
+                Ok(()) => Res::Drain { values, rate, len_hint, cstart },
+                Err(p) => {
+                    let msg = p.downcast_ref::<String>().cloned().or_else(|| p.downcast_ref::<&str>().map(|s| s.to_string())).unwrap_or_default();
+                    if msg.contains("PoisonError") {
+                        Res::Poisoned
+                    } else {
+                        std::panic::resume_unwind(p)
+                    }
                 }
-            });
-            Res::Drain { values, rate, len_hint, cstart }
+            }
+        }
+        Op::DrainPanic => {
+            let r = std::panic::catch_unwind(std::panic::AssertUnwindSafe(|| {
+                res.consume(|d| {
+                    let _ = d.len();
+                    let mut it = d.into_iter();
+                    let _ = it.next();
+                    std::panic::resume_unwind(Box::new(ClosurePanic));
+                })
+            }));
+            match r {
+                Err(p) if p.is::<ClosurePanic>() => Res::DrainPanicked,
+                Err(p) => {
+                    let msg = p.downcast_ref::<String>().cloned().or_else(|| p.downcast_ref::<&str>().map(|s| s.to_string())).unwrap_or_default();
+                    if msg.contains("PoisonError") {
+                        Res::Poisoned
+                    } else {
+                        std::panic::resume_unwind(p)
+                    }
+                }
+                Ok(()) => Res::DrainPanicked,
+            }
         }
         Op::IsEmpty => Res::Empty(res.is_empty()),
     }
@@ -103,6 +145,22 @@ impl Scenario for C16Reservoir {
             if r.chance(150) {
                 sequential.push(Op::Drain);
             }
+        }
+        // "panicking closure" profile: sequential only (the shipped code poisons its swap lock, so
+        // every later consume() panics; what must never happen is that a later drain hands out
+        // values from before the panicking one)
+        if r.chance(60) {
+            let mut sequential = vec![];
+            for _ in 0..r.range(1, 5) {
+                sequential.push(Op::Push);
+            }
+            sequential.push(Op::DrainPanic);
+            for _ in 0..r.below(4) {
+                sequential.push(Op::Push);
+            }
+            sequential.push(Op::Drain);
+            sequential.push(Op::Drain);
+            return Plan { capacity: capacity.max(1), sequential, concurrent: vec![] };
         }
         let mut concurrent = vec![];
         if r.chance(600) {
@@ -218,6 +276,7 @@ fn check(plan: &Plan, h: &[Ev]) -> Option<Violation> {
     let cap = plan.capacity;
     // ---------- sequential phase (phase 0) and the quiescent tail are exact
     let mut pending: Vec<f64> = vec![]; // pushed since the last drain, sequentially
+    let mut poisoned_profile = false;
     let mut exact = true; // exactness holds until the concurrent phase starts and after it settled
     let pushes: BTreeMap<u64, (&Ev, f64)> = h.iter().filter_map(|e| if let Res::Push(v) = e.res { Some((v.to_bits(), (e, v))) } else { None }).collect();
     let mut yielded: BTreeSet<u64> = BTreeSet::new();
@@ -225,6 +284,15 @@ fn check(plan: &Plan, h: &[Ev]) -> Option<Violation> {
     for e in h.iter().filter(|e| e.phase == 0) {
         match &e.res {
             Res::Push(v) => pending.push(*v),
+            Res::DrainPanicked => {
+                // that interval is over: whatever it held may be gone, and must never come back
+                pending.clear();
+                poisoned_profile = true;
+            }
+            Res::Poisoned => {}
+            Res::Empty(b) if poisoned_profile => {
+                let _ = b;
+            }
             Res::Empty(b) => {
                 if *b != pending.is_empty() {
                     return violation("is-empty-wrong", format!("is_empty() = {} with {} values pushed since the last drain", b, pending.len()));
